@@ -265,8 +265,12 @@ package fsutil
 //@   property C06 C11
 //@   requires s != nil && h != nil
 //@   modifies type sender, global bufPool, array byte
-//@   effects SendMsg MuLock MuUnlock Progress FsOpen
+//@   effects SendMsg MuLock MuUnlock Progress FsOpen FsOpenRes
 //@   ensures terminator: result == nil ==> cnt(SendMsg) >= old(cnt(SendMsg)) + 1 && arg(SendMsg, 0) == types.PACKET_DATA && arg(SendMsg, 1) == old(h.id) && arg(SendMsg, 2) == 0
+// KNOWN FINDING F20 (not repaired): a file that cannot be opened is answered with the empty
+// terminator only and the call succeeds - the receiver stores an empty file and both ends report
+// success. The statement-derived obligation: success means the file was opened.
+//@   ensures success_means_the_file_was_opened: result == nil ==> cnt(FsOpenRes) > old(cnt(FsOpenRes)) && arg(FsOpenRes, 0) == nil
 
 //@ pred specCanRequest(mode uint32) bool = mode & 0x8f280000 == 0
 
@@ -409,7 +413,7 @@ package fsutil
 //@ func hardlinkFilter.Open
 //@   property C11
 //@   requires r != nil
-//@   effects FsOpen
+//@   effects FsOpen FsOpenRes
 //@   ensures same_view: cnt(FsOpen) == old(cnt(FsOpen)) + 1 && arg(FsOpen, 0) == p
 
 // a path is requested at most once, by the id it was announced with, and the
@@ -803,7 +807,7 @@ package fsutil
 //@   property C11
 //@   requires fs != nil
 //@   requires notexist_is_an_error: os.ErrNotExist != nil
-//@   effects MatchRes FsOpen
+//@   effects MatchRes FsOpen FsOpenRes
 //@   ensures include_decides: result1 == nil && fs.includeMatcher != nil && fs.excludeMatcher == nil ==> cnt(MatchRes) > old(cnt(MatchRes)) && arg(MatchRes, 0) == fs.includeMatcher && arg(MatchRes, 1)
 //@   ensures exclude_decides: result1 == nil && fs.excludeMatcher != nil ==> cnt(MatchRes) > old(cnt(MatchRes)) && arg(MatchRes, 0) == fs.excludeMatcher && !arg(MatchRes, 1)
 //@   at call FS.Open: visible: (fs.includeMatcher == nil && fs.excludeMatcher == nil) || cnt(MatchRes) > old(cnt(MatchRes))
